@@ -179,8 +179,16 @@ def r16d(ck, prog, functions=None, rule="R16d", all_exits=True):
                 if a.d["op"] == "=" and a.kids[0].strip().k == "DeclRefExpr" and a.kids[0].strip().d["did"] == did:
                     r = a.kids[1].strip(casts=True)
                     if r.k == "CallExpr" and r.callee in prog.functions and r.callee not in ("malloc",) and \
-                            any(x in r.callee for x in ("alloc", "create", "pick_anchor", "d_estimation", "init_")):
+                            any(x in r.callee.lower() for x in ("alloc", "create", "pick_anchor", "d_estimation", "init_")):
                         acq.append(r)
+            # `T* p = constructor();` in a declaration (DECLARE_TIMER hides esl_stopwatch_Create() this way)
+            for d_ in F.body.find("DeclStmt"):
+                for kid in d_.kids:
+                    if kid.role == "declinit" and kid.decl.get("did") == did:
+                        r = kid.strip(casts=True)
+                        if r.k == "CallExpr" and r.callee and (r.callee in ("malloc", "calloc", "fopen") or (
+                                r.callee in prog.functions and any(x in r.callee.lower() for x in ("alloc", "create", "init_")))):
+                            acq.append(r)
             if not acq:
                 continue
             # barriers: releases, hand-overs, NULL tests guarding a release, reassignment
